@@ -44,9 +44,28 @@ def install_io(P, g):
     return fs
 
 
+_NUM_STYLE = [0]
+
+
 def num(x):
-    """text of a number as the shortest round-trip repr (concrete) / a token (symbolic)"""
-    return "{}".format(x)
+    """text of a number: a token in symbolic mode (stands for ANY lexical form float()/int() accept); in concrete mode
+    the lexical form rotates over shortest repr, explicit sign, lower- and upper-case scientific notation with 17
+    significant digits (all parse back to the same double)"""
+    if isinstance(x, bool) or not isinstance(x, (int, float)):
+        return "{}".format(x)
+    _NUM_STYLE[0] += 1
+    k = _NUM_STYLE[0] % 5
+    if isinstance(x, int):
+        return "%+d" % x if (k == 1 and x >= 0) else "%d" % x
+    if x != x or x in (float("inf"), float("-inf")):
+        return repr(x)
+    if k == 1:
+        return "%.17e" % x
+    if k == 2:
+        return "%.17E" % x
+    if k == 3:
+        return ("+" if x >= 0 else "") + repr(x)
+    return repr(x)
 
 
 class LogCapture(logging.Handler):
